@@ -265,3 +265,34 @@ func (p *pathRun) zeroMod(E, m *smt.Term) *smt.Term {
 	}
 	return res
 }
+
+// canonMod returns a canonical term for E mod m (m a numeral): the polynomial
+// normal form of E (nested reductions modulo m flattened, coefficients reduced)
+// rebuilt deterministically. Equal residues that are equal as polynomials get
+// the identical term, so coordinate terms of equal points coincide
+// syntactically. Falls back to the plain term when the expansion is too large.
+func (p *pathRun) canonMod(E, m *smt.Term) *smt.Term {
+	c := p.ctx
+	if !m.IsConst() || m.Val.Sign() <= 0 {
+		return c.Mod(E, m)
+	}
+	if E.IsConst() {
+		return c.Mod(E, m)
+	}
+	key := [2]int{E.ID, m.ID}
+	if r, ok := p.canonMemo[key]; ok {
+		return r
+	}
+	q, ok := p.polyOf(E, m, m.Val, map[*smt.Term]poly{})
+	var res *smt.Term
+	if !ok {
+		res = c.Mod(E, m)
+	} else {
+		res = c.Mod(p.polyTerm(q), m)
+	}
+	if p.canonMemo == nil {
+		p.canonMemo = map[[2]int]*smt.Term{}
+	}
+	p.canonMemo[key] = res
+	return res
+}
